@@ -431,6 +431,24 @@ def opClassify (args : List String) : String :=
     | _, _, _, _ => "bad-op"
   | _ => "bad-op"
 
+/-- `detectaxis <i_pbc> <transformation matrix, 9 rationals row major>` and `vacuum2 <extent² · |c|²>` -/
+def opDetectAxis (args : List String) : String :=
+  match args with
+  | [iS, mS] =>
+    match iS.toNat?, parseV3s? mS with
+    | some i, some rows => match Matid.TwoD.detectAxis rows i with
+      | some k => toString k
+      | none => "MatIDError"
+    | _, _ => "bad-op"
+  | _ => "bad-op"
+
+def opVacuum2 (args : List String) : String :=
+  match args with
+  | [eS] => match parseRat? eS with
+    | some e => showRat (Matid.TwoD.vacuumLength2 e)
+    | none => "bad-op"
+  | _ => "bad-op"
+
 def step (line : String) : String :=
   match words line with
   | "radii" :: args => opRadii args
@@ -456,6 +474,8 @@ def step (line : String) : String :=
   | "sbcclean" :: args => opSbcClean args
   | "sbcrun" :: args => opSbcRun args
   | "classify" :: args => opClassify args
+  | "detectaxis" :: args => opDetectAxis args
+  | "vacuum2" :: args => opVacuum2 args
   | _ => "bad-op"
 
 partial def loop (h : IO.FS.Stream) (out : IO.FS.Stream) : IO Unit := do
